@@ -508,6 +508,15 @@ class Prov:
                     and len(v.args) == 1:
                 kind = "whole" if self.is_whole(v.args[0]) else "block"
                 out.append((kind, self.reducer(v), v))
+            elif isinstance(v, ast.Call) and len(v.args) == 1 \
+                    and not v.keywords and self.reducer(v) is not None \
+                    and self.data in names_in(v.args[0]) \
+                    and self.D not in {n.value.id for n in ast.walk(
+                        v.args[0]) if isinstance(n, ast.Subscript)
+                        and isinstance(n.value, ast.Name)}:
+                # a reduction over something computed from the input array
+                # (a cast, a copy): the new block, but not as it is stored
+                out.append(("block", self.reducer(v), v))
             elif isinstance(v, ast.Call) and self.reducer(v) is not None \
                     and len(v.args) == 1 and isinstance(
                     v.args[0], (ast.List, ast.Tuple)) \
@@ -750,13 +759,14 @@ def r201(ctx, repo):
                 if ARM_F20B:
                     blk_nodes = [f[2] for o in ops for f in o
                                  if f[0] == "block"]
-                    from_input = [b for b in blk_nodes if isinstance(
-                        b.args[0], ast.Name)]
+                    from_input = [b for b in blk_nodes
+                                  if not pv.is_stored_block(b.args[0])]
                     ctx.ob("R20.1", not from_input,
                            f"{uname} of the new block is taken from the "
                            f"stored block" if not from_input else
-                           f"{uname} of the new block is computed from the "
-                           f"input `{pv.data}`, not from what is stored: "
+                           f"{uname} of the new block is computed from "
+                           f"`{short(from_input[0].args[0], 40)}` (the "
+                           f"input), not from what is stored: "
                            f"write_ndarray casts the input to the dataset's "
                            f"dtype (uint32/uint64 features), the summary "
                            f"then describes values that are not in the file",
@@ -2385,6 +2395,9 @@ MUTANTS = [
 
 #: for the tree with fix_F20b.diff applied and ARM_F20B = True
 MUTANTS_AFTER_FIX_F20B = [
+    ("block extrema from an in-memory cast of the input", WR,
+     ("val_b = ufunc(dset[offset:])",
+      "val_b = ufunc(np.asarray(data).astype(dset.dtype))"), "R20.1"),
     ("F20b returns: block extrema from the input array", WR,
      ("val_b = ufunc(dset[offset:])", "val_b = ufunc(data)"), "R20.1"),
 ]
